@@ -105,6 +105,8 @@ def run(ck, ctx):
                      "or was cleared on every path to the push - or every pop side clears before handing it out; a handler releases its "
                      "input buffer with whatever unparsed bytes the last client left in it, and the next connection that acquires the "
                      "buffer would have them prepended to its own first command")
+    from . import bounds as _bounds
+    ck.rule("R04.10", _bounds.TEXT % "the connection handler (recognisers, collectors, stub-command dispatch) - shared with C15 R15.11")
     ck.nd("that each reply equals the stand-alone reply (C01/C03)")
     ck.nd("segmentation behaviour beyond 'NeedMoreData consumes nothing' (RespCodec's incomplete-input contract is C15)")
     for cfg in ctx.configs:
@@ -118,6 +120,8 @@ def run(ck, ctx):
         from . import c15
         c15.prefix_rule(ck, prog, cfg, "R04.7")
         _r049(ck, prog, cfg)
+        _bounds.rule(ck, prog, cfg, "R04.10", ("src/production/connection_optimized.rs",),
+                     "a read that ends right behind a command header (or a malformed frame)", floor=9, tag=_tag(cfg))
 
 
 # ---------------------------------------------------------------------------------------------
